@@ -1003,3 +1003,160 @@ Proof.
 Qed.
 
 End Run.
+
+(* ------------------------------------------------------------------ *)
+(* Part 5.  Consequences                                                *)
+(* ------------------------------------------------------------------ *)
+Section Consequences.
+Variable cfgs : list ncfg.
+Variable kinds : list fkind.
+Variable beh : behaviour.
+Notation n := (length cfgs).
+Notation cfg := (EngineFacts.cfg cfgs).
+Notation kind := (kind_at kinds).
+Hypothesis WF : fb_wf cfgs kinds.
+
+(* every value the reader side ever shows was written exactly one smallest step earlier
+   (or is the declared initial value at the start time): never in the reader's own cycle *)
+Lemma never_same_cycle_l k p s init start end_ fuel :
+  kind k = FSink -> cfg k = sink_cfg p s -> kind s = FSource init ->
+  MIN_DT < start -> end_ <= MAX_DT ->
+  g_err (f_g (fsim cfgs kinds beh start end_ fuel)) = 0 ->
+  let sts := fstates cfgs kinds beh end_ fuel (fstart cfgs kinds beh start) in
+  forall t v, In (t, v) (ticks_of s sts) ->
+    (t = start /\ init = Some v) \/ In (t - MIN_TD, v) (ticks_of p sts).
+Proof.
+  intros HK HC HS Hst He Herr sts t v Hin. unfold sts in *.
+  rewrite (feedback_shift_l cfgs kinds beh WF k p s init HK HC HS start end_ fuel Hst He Herr) in Hin.
+  apply in_app_or in Hin. destruct Hin as [Hin|Hin].
+  - left. destruct init as [w|]; [|destruct Hin]. destruct (start <? end_); [|destruct Hin].
+    destruct Hin as [Heq|[]]. inversion Heq. auto.
+  - right. apply in_map_iff in Hin. destruct Hin as ([t0 v0] & Heq & Hin). apply filter_In in Hin. destruct Hin as [Hin _].
+    unfold shift in Heq. simpl in Heq. inversion Heq. subst. replace (t0 + MIN_TD - MIN_TD) with t0 by lia. exact Hin.
+Qed.
+
+(* no loss: every write whose delivery time lies inside the run is delivered, one step later *)
+Lemma no_loss_l k p s init start end_ fuel :
+  kind k = FSink -> cfg k = sink_cfg p s -> kind s = FSource init ->
+  MIN_DT < start -> end_ <= MAX_DT ->
+  g_err (f_g (fsim cfgs kinds beh start end_ fuel)) = 0 ->
+  let sts := fstates cfgs kinds beh end_ fuel (fstart cfgs kinds beh start) in
+  forall t v, In (t, v) (ticks_of p sts) -> t + MIN_TD < end_ -> In (t + MIN_TD, v) (ticks_of s sts).
+Proof.
+  intros HK HC HS Hst He Herr sts t v Hin Hlt. unfold sts in *.
+  rewrite (feedback_shift_l cfgs kinds beh WF k p s init HK HC HS start end_ fuel Hst He Herr).
+  apply in_or_app. right. apply in_map_iff. exists (t, v). split; [reflexivity|].
+  apply filter_In. split; auto. unfold deliverable. simpl. lia.
+Qed.
+
+(* the cycle of the delivery exists whatever else is (not) scheduled *)
+Lemma delivery_cycle_exists_l k p s init pend x end_ f w :
+  kind k = FSink -> cfg k = sink_cfg p s -> kind s = FSource init ->
+  FB cfgs k p s pend x -> g_nst (f_g x) < MAX_DT -> end_ <= MAX_DT ->
+  let t := g_nst (f_g x) in
+  let x' := fcycle cfgs kinds beh t x in
+  g_err (f_g x') = 0 -> tick_now p (f_g x') = Some w -> t + MIN_TD < end_ ->
+  exists rest, fstates cfgs kinds beh end_ (S f) x' = fcycle cfgs kinds beh (t + MIN_TD) x' :: rest.
+Proof.
+  intros HK HC HS HF Hlt He t x' Herr Hw Hend.
+  destruct (fcycle_pair cfgs kinds beh WF k p s init HK HC HS pend x HF Hlt Herr) as (N & R & F' & Gt & W).
+  fold t in N, Gt, W. fold x' in N, R, F', Gt, W.
+  specialize (W ltac:(congruence)).
+  change (fstates cfgs kinds beh end_ (S f) x') with
+    (if negb (g_err (f_g x') =? 0) then [] else
+     if (g_nst (f_g x') =? MAX_DT) || (end_ <=? g_nst (f_g x')) then [] else
+     fcycle cfgs kinds beh (g_nst (f_g x')) x' :: fstates cfgs kinds beh end_ f (fcycle cfgs kinds beh (g_nst (f_g x')) x')).
+  replace (negb (g_err (f_g x') =? 0)) with false by lia. rewrite W.
+  replace ((t + MIN_TD =? MAX_DT) || (end_ <=? t + MIN_TD)) with false by lia.
+  eexists. reflexivity.
+Qed.
+
+(* ---- quiescence of loops that are read only passively ---- *)
+Definition unread_source (i : nat) : Prop :=
+  (exists init, kind i = FSource init) /\ forall j, act_from cfgs i j = false.
+
+Lemma eval_source_unread j x :
+  (forall m, act_from cfgs j m = false) ->
+  let x' := eval_source cfgs j x in
+  g_now (f_g x') = g_now (f_g x) /\ (forall m, slot_at m (f_g x') = slot_at m (f_g x)) /\
+  g_nst (f_g x') = g_nst (f_g x) /\ g_err (f_g x') = g_err (f_g x) /\ f_st x' = f_st x /\
+  length (g_nodes (f_g x')) = length (g_nodes (f_g x)) /\
+  (forall m, m <> j -> node_at m (f_g x') = node_at m (f_g x)).
+Proof.
+  intros Hun. cbn zeta. unfold eval_source. cbn zeta. simpl f_g. simpl f_st.
+  destruct (negb (n_started (node_at j (f_g x)))); [repeat split; auto|].
+  destruct (state_at j x) as [v|]; [|repeat split; auto].
+  set (g1 := upd_node j (set_out v (g_now (f_g x))) (f_g x)).
+  assert (Hl : forall m c, nth_error cfgs m = Some c -> c = cfg (0 + m)).
+  { intros m c Hm. apply (cfgs_nth_error cfgs m c Hm). }
+  destruct (notify_spec cfgs cfgs 0%nat j g1 Hl) as (B1 & B2 & B3 & B4 & B5 & B6 & B7).
+  repeat split; auto.
+  - intros m. change (slot_at m (notify_from cfgs 0 j g1) = slot_at m g1).
+    destruct (B6 m) as [X|(_ & X & _)]; auto. rewrite Hun in X. discriminate.
+  - change (length (g_nodes (notify_from cfgs 0 j g1)) = length (g_nodes (f_g x))). rewrite B2.
+    unfold g1, upd_node; simpl. apply update_length.
+  - intros m Hm. change (node_at m (notify_from cfgs 0 j g1) = node_at m (f_g x)).
+    unfold node_at at 1. rewrite B2. fold (node_at m g1). unfold g1. apply node_at_upd_other; auto.
+Qed.
+
+Record QI (T : Z) (x0 x : xst) : Prop := {
+  q_now : g_now (f_g x) = T;
+  q_nst : g_nst (f_g x) = MAX_DT;
+  q_err : g_err (f_g x) = g_err (f_g x0);
+  q_st : f_st x = f_st x0;
+  q_slots : forall m, slot_at m (f_g x) = slot_at m (f_g x0);
+  q_nodes : forall m, (forall init, kind m <> FSource init) -> node_at m (f_g x) = node_at m (f_g x0) }.
+
+Lemma fscan_QI T x0 m : forall j x,
+  (forall i, (j <= i < j + m)%nat -> slot_at i (f_g x0) <= T) ->
+  (forall i, (j <= i < j + m)%nat -> slot_at i (f_g x0) = T -> unread_source i) ->
+  QI T x0 x -> QI T x0 (fscan cfgs kinds beh j m x).
+Proof.
+  induction m as [|m IH]; intros j x Hle Hun H; simpl; auto.
+  destruct (negb (g_err (f_g x) =? 0)); auto.
+  apply IH.
+  - intros i Hi. apply Hle. lia.
+  - intros i Hi. apply Hun. lia.
+  - destruct H as [Q1 Q2 Q3 Q4 Q5 Q6]. unfold fscan_step. cbn zeta. rewrite Q5, Q1.
+    destruct (slot_at j (f_g x0) =? T) eqn:E.
+    + destruct (Hun j ltac:(lia) ltac:(lia)) as [[init Hk] Hact].
+      unfold eval_any. simpl f_g. rewrite Hk.
+      set (x1 := {| f_g := upd_node j inc_evals (emit [11; Z.of_nat j; T] (f_g x)); f_st := f_st x |}).
+      destruct (eval_source_unread j x1 Hact) as (A1 & A2 & A3 & A4 & A5 & A6 & A7).
+      assert (X1 : g_now (f_g x1) = T) by exact Q1.
+      assert (X2 : g_nst (f_g x1) = MAX_DT) by exact Q2.
+      assert (X3 : g_err (f_g x1) = g_err (f_g x0)) by exact Q3.
+      assert (X4 : f_st x1 = f_st x0) by exact Q4.
+      constructor; try congruence.
+      * intros m0. rewrite A2. apply Q5.
+      * intros m0 Hm0. assert (m0 <> j) by (intros ->; apply (Hm0 init); auto).
+        rewrite A7 by auto. unfold x1; simpl f_g. rewrite node_at_upd_other by auto. apply Q6; auto.
+    + specialize (Hle j ltac:(lia)). replace (T <? slot_at j (f_g x0)) with false by lia.
+      constructor; auto.
+Qed.
+
+(* If everything that is due at the next cycle is a feedback source nobody reads actively,
+   and nothing is armed later, that cycle delivers the values and the engine is then idle:
+   the run loop stops there, whatever the end time. *)
+Lemma passive_quiesce_l x :
+  let T := g_nst (f_g x) in
+  (forall i, (i < n)%nat -> slot_at i (f_g x) <= T) ->
+  (forall i, (i < n)%nat -> slot_at i (f_g x) = T -> unread_source i) ->
+  let x' := fcycle cfgs kinds beh T x in
+  g_nst (f_g x') = MAX_DT /\
+  (forall end_ fuel, frun cfgs kinds beh end_ (S fuel) x' = x') /\
+  (forall m, (forall init, kind m <> FSource init) -> node_at m (f_g x') = node_at m (f_g x)) /\
+  f_st x' = f_st x.
+Proof.
+  intros T Hle Hun x'. unfold x', fcycle. cbn zeta. simpl f_g. simpl f_st.
+  set (x0 := {| f_g := begin_cycle T (f_g x); f_st := f_st x |}).
+  assert (H0 : QI T x0 x0) by (constructor; auto).
+  pose proof (fscan_QI T x0 n 0%nat x0 ltac:(intros i Hi; apply Hle; lia) ltac:(intros i Hi; apply Hun; lia) H0) as [Q1 Q2 Q3 Q4 Q5 Q6].
+  set (x1 := fscan cfgs kinds beh 0 n x0) in *.
+  split; [exact Q2|]. split; [|split; [intros m Hm; apply (Q6 m Hm)|exact Q4]].
+  intros end_ fuel. simpl.
+  destruct (negb (g_err (f_g x1) =? 0)); auto.
+  rewrite Q2. rewrite Z.eqb_refl. reflexivity.
+Qed.
+
+End Consequences.
